@@ -53,7 +53,14 @@ def parse_unit(path):
     block = None  # (kind, data)
     cur_label = None
     with open(path) as f:
-        lines = f.read().split("\n")
+        lines0 = f.read().split("\n")
+    lines = []
+    for raw in lines0:
+        if raw.strip().startswith("//@ include "):
+            inc = os.path.join(os.path.dirname(path), raw.strip().split()[2])
+            lines += open(inc).read().split("\n")
+        else:
+            lines.append(raw)
     for ln, raw in enumerate(lines, 1):
         s = raw.strip()
         if s.startswith("//@"):
@@ -67,7 +74,7 @@ def parse_unit(path):
                 continue
             if block is not None and block[0] == "raw" and not d.split()[0] in (
                     "unit", "prelude", "specs", "from", "take", "stub", "contract", "loop", "hint", "replace", "raw",
-                    "obligation", "canary"):
+                    "obligation", "canary", "derive_eq", "include"):
                 continue
             block = None
             cur_label = None
@@ -132,6 +139,8 @@ def parse_unit(path):
                 u.labels[m.group(1)] = dict(props=m.group(2).split(","), desc=m.group(3))
             elif w[0] == "canary":
                 u.canary = w[1]
+            elif w[0] == "derive_eq":
+                u.derive_eq = getattr(u, "derive_eq", []) + w[1:]
             else:
                 raise BuildError("%s:%d unknown directive %r" % (path, ln, w[0]))
             continue
@@ -455,17 +464,42 @@ def transform_fn(u, fnkey, text, em, meta, is_trait_impl=False, nested=False, st
     if stub:
         if parts["open"] is None:
             raise BuildError("stub %s has no body" % fnkey)
-    if contract is not None:
-        contract["used"] = True
-        if parts["arrow"] is not None:
-            a = parts["arrow"]
-            endtok = parts["where"] if parts["where"] is not None else parts["open"]
+
+    def inject_sig(pp, c, key):
+        c["used"] = True
+        if pp["arrow"] is not None:
+            a = pp["arrow"]
+            endtok = pp["where"] if pp["where"] is not None else pp["open"]
             ts, te = toks[a + 1][2], toks[endtok - 1][3]
             rtype = plain[ts:te]
-            if not rtype.strip().startswith("("  + contract["ret"] + ":"):
-                inserts.append(("replace", ts, te, "(%s: %s)" % (contract["ret"], rtype.strip())))
+            if not rtype.strip().startswith("(" + c["ret"] + ":"):
+                inserts.append(("replace", ts, te, "(%s: %s)" % (c["ret"], rtype.strip())))
                 rules.append("R2 named return")
-        inserts.append(("insert", toks[parts["open"]][2], contract["lines"], "%s.contract" % fnkey))
+        inserts.append(("insert", toks[pp["open"]][2], c["lines"], "%s.contract" % key))
+
+    if contract is not None:
+        inject_sig(parts, contract, fnkey)
+    # contracts on nested fns: key "outer/inner"
+    for key, c in u.contracts.items():
+        if not key.startswith(fnkey + "/"):
+            continue
+        inner = key.split("/", 1)[1]
+        idx = [k for k in range(parts["open"], parts["close"]) if toks[k][1] == "fn" and toks[k + 1][1] == inner]
+        if len(idx) != 1:
+            raise BuildError("anchor lost: nested fn %s in %s (%d candidates)" % (inner, fnkey, len(idx)))
+        k = idx[0]
+        j = k
+        arrow = None
+        where = None
+        while toks[j][1] != "{":
+            if toks[j][1] in ("(", "["):
+                j = rsx.match_close(toks, j)
+            elif toks[j][1] == "->" and arrow is None:
+                arrow = j
+            elif toks[j][1] == "where":
+                where = j
+            j += 1
+        inject_sig(dict(arrow=arrow, where=where, open=j), c, key)
     # loops
     loops = _loops_in(plain, toks, parts["open"] + 1, parts["close"]) if parts["open"] is not None else []
     for (fk, k), ld in u.loops.items():
@@ -629,6 +663,13 @@ def build(unit_path, out_dir, canary=False, repo=REPO):
             extraction.append(dict(item="%s %s" % (tk["kind"], tk["name"]), file=meta["file"],
                                    line_start=meta["line_start"], line_end=meta["line_end"], sha256=meta["sha256"],
                                    rules=sorted(set(meta["rules"]))))
+    for ty in getattr(u, "derive_eq", []):
+        em.emit("// ASSUMED (D3'): #[derive(PartialEq)] on the field-less enum %s is structural equality" % ty)
+        em.emit("impl vstd::std_specs::cmp::PartialEqSpecImpl for %s {" % ty)
+        em.emit("    open spec fn obeys_eq_spec() -> bool { true }")
+        em.emit("    open spec fn eq_spec(&self, other: &%s) -> bool { *self == *other }" % ty)
+        em.emit("}")
+        em.emit("pub assume_specification[ <%s as PartialEq>::eq ](a: &%s, b: &%s) -> (r: bool) ensures r == (*a == *b);" % (ty, ty, ty))
     for r in u.raws:
         start = em.cur()
         for (lab, l) in r["lines"]:
